@@ -3,6 +3,7 @@ package props
 import (
 	"errors"
 	"fmt"
+	"io"
 	"math"
 	"testing"
 
@@ -33,6 +34,9 @@ type sizeCase struct {
 type countingReader struct {
 	calls int
 	bytes int
+	// eofWithData: report io.EOF in the same call that delivers the bytes (allowed by io.Reader;
+	// iotest.DataErrReader behaves like this): still a working source, everything asked is delivered
+	eofWithData bool
 }
 
 func (r *countingReader) Read(p []byte) (int, error) {
@@ -41,6 +45,9 @@ func (r *countingReader) Read(p []byte) (int, error) {
 		p[i] = byte(0x31 + r.bytes + i)
 	}
 	r.bytes += len(p)
+	if r.eofWithData {
+		return len(p), io.EOF
+	}
 	return len(p), nil
 }
 
@@ -85,7 +92,7 @@ var c09Check = register("C09", "c09.size", func(c *sizeCase) error {
 		}
 		n := int(c.N)
 		sig := fmt.Sprintf("C09 count n=%d", n)
-		src := &countingReader{}
+		src := &countingReader{eofWithData: c.Extra%2 == 1}
 		prev := bip39.VerifSwapRandSource(src)
 		got, err, p := implNew(n, lang)
 		bip39.VerifSwapRandSource(prev)
@@ -184,6 +191,7 @@ func TestC09_Range(t *testing.T) {
 		if n >= -3 && n <= 40 {
 			for _, l := range c09Langs {
 				run(&sizeCase{Op: "count", N: n, Lang: l})
+				run(&sizeCase{Op: "count", N: n, Lang: l, Extra: 1}) // the source reports EOF together with the data
 			}
 			continue
 		}
